@@ -21,10 +21,12 @@ pub enum Number {
 impl Number {
     pub fn negate(&self) -> Option<Self> {
         use Number::*;
+        // negate the value, not the text: the operand may itself be a folded negative number ("-2"),
+        // and a result that does not fit its kind is left to the run time (None = not foldable).
         Some(match self {
-            Integer(x) => Integer("-".to_owned() + x),
-            BigInt(x) => Integer("-".to_owned() + x),
-            Float(x) => Float("-".to_owned() + x),
+            Integer(x) => Integer(x.parse::<i32>().ok()?.checked_neg()?.to_string()),
+            BigInt(x) => BigInt(x.parse::<i128>().ok()?.checked_neg()?.to_string()),
+            Float(x) => Float((-x.parse::<f64>().ok()?).to_string()),
             Byte(_) => return None,
         })
     }
